@@ -611,6 +611,32 @@ theorem c11_account_sound_state (H : Bytes → Bytes) (h32 : ∀ x, (H x).length
   rw [hh] at hha
   exact ⟨aT, sa, hlT, hsa, (Option.some.inj hha).symm⟩
 
+/-- THE BLOCK ID BINDS THE STATE HASH.  Let the first root of the bag be the object of a spec-valid tree
+`.mk kind bits [pb]` (`pb` = the body of the header proof) that passes `check_proof` against the block root hash `blk`,
+and let `check_block_header_proof(pb, blk, True)` return `sh` (as `c11_account_sound_state` reports for an accepted account
+proof).  Then for EVERY tree `TB` (`Shape`) whose level-0 hash is `blk` and in which pruned branches occur only below
+Merkle cells (a genuine block), under the local no-collision hypothesis between the representations of `pb` and `TB`:
+`TB`'s own third reference is a Merkle update cell whose data bytes 33..64 — the new-state hash of the `state_update` —
+are `sh`.  So the state hash the account check goes on with is the one the true block with that id commits to. -/
+theorem c11_header_binds_state (H : Bytes → Bytes) (h32 : ∀ x, (H x).length = 32) (kind : Int) (bits : Bits)
+    (pb TB : Cell) (c0 hdr : PCell) (blk sh : Bytes) (sp sT : Spec.SInfo)
+    (wf : TreeWF H (.mk kind bits [pb])) (hc0 : PCell.ofCell H (.mk kind bits [pb]) = some c0)
+    (h0 : checkProof c0 blk = true) (hhdr : c0.refs[0]? = some hdr)
+    (hsh : checkBlockHeaderProofState hdr blk = some sh)
+    (shp : Shape pb) (shT : Shape TB) (hsp : specInfo H pb = some sp) (hsT : specInfo H TB = some sT)
+    (hT : sT.hashAt 0 = blk) (hu : OrdUnpruned TB)
+    (nocoll : ∀ x y, x ∈ reprs H pb → y ∈ reprs H TB → H x = H y → x = y) :
+    ∃ suT, (cellView.refs TB)[2]? = some suT ∧ cellView.kind suT = kMerkleUpdate ∧
+      pySlice (dataBytes (cellView.bits suT)) 33 65 = sh := by
+  obtain ⟨_, _, hag⟩ := c11_sound H h32 kind bits pb TB c0 blk sp sT wf hc0 h0 shp shT hsp hsT hT nocoll
+  obtain ⟨r, hr, hrp⟩ := ofCell_single H kind bits pb _ hc0
+  rw [hr] at hhdr
+  simp only [List.getElem?_cons_zero, Option.some.injEq] at hhdr
+  subst hhdr
+  obtain ⟨_, su, c, h2, _, hk, _, hdata⟩ := c11_header_state_sound r blk sh hsh
+  obtain ⟨suT, hsuT, hkT, hbT⟩ := header_transfer H pb TB r su hrp hag hu shp h2 hk
+  exact ⟨suT, hsuT, hkT, by rw [hbT]; exact hdata⟩
+
 /-- COMPLETENESS OF `check_account_proof`, END TO END, for honest proofs.  `tb` = the block (spec-valid, level 0), `ts` =
 the shard state (spec-valid, level 0); `pb`, `ps` ANY prunings of them (`PruneRel … 1`: any set of subtrees replaced by
 pruned branches, deeper levels below inner Merkle cells), each wrapped in the Merkle proof cell naming the level-0 hash
@@ -694,5 +720,28 @@ example : (match PCell.ofCell toyH xState with
     (pruneRels_cons _ _ _ _ (pruneRel_ord_refl _ _ _ _ (pruneRels_cons _ _ _ _ (pruneRel_ord_refl _ _ _ _
       (pruneRels_cons _ _ _ _ (pruneRel_ord_refl _ _ _ _ (pruneRels_nil _ _)) (pruneRels_nil _ _))) (pruneRels_nil _ _)))
     (pruneRels_cons _ _ _ _ (pruneRel_ord_refl _ _ _ _ (pruneRels_nil _ _)) (pruneRels_nil _ _))))
+
+/-! Non-vacuity of the hypotheses of `c11_header_binds_state` about `TB`: a block-shaped tree — ordinary root whose third
+reference is a Merkle update over two pruned branches (as in every real block) — has the `Shape` of a valid bag, spec values,
+pruned branches only below its Merkle cell, and the toy hash is injective on its representations. -/
+def pbC : Cell := .mk 1 (bytesToBits ([1, 1] ++ List.replicate 32 9 ++ [0, 0])) []
+def updB : Cell := .mk 4 (bytesToBits ([4] ++ List.replicate 32 7 ++ List.replicate 32 9 ++ [0, 0, 0, 0])) [pbB, pbC]
+def blkB : Cell := .mk (-1) [true, true, false] [leafA, leafA, updB]
+
+example : Shape blkB ∧ (∃ s, specInfo toyH blkB = some s) ∧ OrdUnpruned blkB ∧
+    (∃ suT, (cellView.refs blkB)[2]? = some suT ∧ cellView.kind suT = kMerkleUpdate) ∧
+    (∀ x y, x ∈ reprs toyH blkB → y ∈ reprs toyH blkB → toyH x = toyH y → x = y) := by
+  have hm7 : pmaskOf (bytesToBits ([1, 1] ++ List.replicate 32 7 ++ [0, 0])) = 1 := by decide +kernel
+  have hm9 : pmaskOf (bytesToBits ([1, 1] ++ List.replicate 32 9 ++ [0, 0])) = 1 := by decide +kernel
+  have hp : Spec.popcount 1 = 1 := by simp [Spec.popcount]
+  have hl7 : (bytesToBits ([1, 1] ++ List.replicate 32 7 ++ [0, 0])).length = 288 := by rw [length_bytesToBits]; simp
+  have hl9 : (bytesToBits ([1, 1] ++ List.replicate 32 9 ++ [0, 0])).length = 288 := by rw [length_bytesToBits]; simp
+  refine ⟨?_, by simp [blkB, updB, pbB, pbC, leafA, specInfo, specInfos, kindOf], ?_, ⟨updB, rfl, rfl⟩, ?_⟩
+  · simp only [blkB, updB, pbB, pbC, leafA, Shape, Shapes, hm7, hm9, hp, hl7, hl9]
+    simp
+  · simp only [blkB, updB, pbB, pbC, leafA, OrdUnpruned, OrdUnprunedL]
+    simp
+  · have key : ∀ x ∈ reprs toyH blkB, ∀ y ∈ reprs toyH blkB, toyH x = toyH y → x = y := by decide +kernel
+    exact fun x y hx hy => key x hx y hy
 
 end TonVerif.Properties.C11
